@@ -623,7 +623,7 @@ package pdf
 //@ func (*Reader).get (r, ref, canObjStm, scalarOnly) (obj, err)
 //@   tags C04
 //@   assigns *
-//@   ensures !((ref % 4294967296) in r.xref) || r.xref[ref % 4294967296] == nil || r.xref[ref % 4294967296].Pos < 0 || r.xref[ref % 4294967296].Generation != (ref / 4294967296) % 65536 ==> obj == nil && err == nil
+//@   ensures old(!((ref % 4294967296) in r.xref) || r.xref[ref % 4294967296] == nil || r.xref[ref % 4294967296].Pos < 0 || r.xref[ref % 4294967296].Generation != (ref / 4294967296) % 65536) ==> obj == nil && err == nil
 
 // ---- object-stream discipline (C05): what is needed to open an object stream is never
 // ---- read from an object stream.  objStmOK is uninterpreted: a function that does not
